@@ -26,13 +26,27 @@ import vlib
 
 MODULES = ["Verif.C19.Theorems"]
 THEOREMS = [
+    # every type of the grammar: alignment in {1,2,4,8} and alignment | size (discharges the hypotheses below)
+    "Verif.C19.types_wellformed",
+    # go/gcsizes = compiler rules, all types / all field lists
     "Verif.C19.gcsizes_eq_gc",
     "Verif.C19.gcsizes_offsets_eq_gc",
+    # cmd/structlayout: records tile [0, Sizeof T), are a valid roomy layout, field records = the compiler's leaves
     "Verif.C19.layout_tiles",
     "Verif.C19.layout_fields_aligned",
+    "Verif.C19.layout_fields_eq_gc",
+    "Verif.C19.layout_is_good_input",
+    # cmd/structlayout-optimize -r on ALL record lists (hypotheses explicit)
     "Verif.C19.optimize_perm",
     "Verif.C19.optimize_valid",
     "Verif.C19.optimize_not_larger",
+    "Verif.C19.optimize_not_larger_of_dvd",
+    # ... composed with structlayout, all struct types, both modes
+    "Verif.C19.combine_layout_fields",
+    "Verif.C19.optimize_layout_perm",
+    "Verif.C19.optimize_r_layout_perm",
+    "Verif.C19.optimize_layout_valid",
+    "Verif.C19.optimize_r_layout_not_larger",
     "Verif.C19.optimize_layout_not_larger",
 ]
 
@@ -224,20 +238,27 @@ def render_module(ctx, d, types, extra_types=()):
     for i, t in enumerate(types):
         tdecl.append("type T%d %s" % (i, go_src(t, decls)))
     body = "\n".join([v for v in decls.values()] + tdecl) + "\n"
+    # extra types (the structs as reordered by structlayout-optimize): only in the printing program
+    xdecl = []
+    for i, t in enumerate(extra_types):
+        xdecl.append("type T%d %s" % (len(types) + i, go_src(t, decls)))
+    body_main = "\n".join([v for v in decls.values()] + tdecl + xdecl) + "\n"
     imp = 'import "unsafe"\n\nvar _ unsafe.Pointer\n\n'
     os.makedirs(os.path.join(d, "p"), exist_ok=True)
     with open(os.path.join(d, "go.mod"), "w") as f:
         f.write("module example.com/c19\n\ngo 1.26\n")
     with open(os.path.join(d, "types.go"), "w") as f:
-        f.write("package main\n\n" + imp + body)
+        f.write("package main\n\n" + imp + body_main)
     with open(os.path.join(d, "p", "types.go"), "w") as f:
         f.write("package p\n\n" + imp + body)
+    types = list(types) + list(extra_types)
     lines = ["package main", "", 'import ("fmt"; "unsafe")', ""]
     for i in range(len(types)):
         lines.append("var v%d T%d" % (i, i))
     lines.append("")
-    lines.append("func main() {")
+    # one small function per type: the compiler's cost is superlinear in the size of a function
     for i, t in enumerate(types):
+        lines.append("func p%d() {" % i)
         for path, kind in nodes(t, []):
             sel = "v%d" % i
             offs = ["uintptr(0)"]
@@ -246,6 +267,11 @@ def render_module(ctx, d, types, extra_types=()):
                 offs.append("unsafe.Offsetof(%s)" % sel)
             lines.append('\tfmt.Println(%d, "%s", "%s", %s, unsafe.Sizeof(%s), unsafe.Alignof(%s))' % (
                 i, ".".join(["T"] + path), kind, "+".join(offs), sel, sel))
+        lines.append("}")
+    lines.append("")
+    lines.append("func main() {")
+    for i in range(len(types)):
+        lines.append("\tp%d()" % i)
     lines.append("}")
     with open(os.path.join(d, "main.go"), "w") as f:
         f.write("\n".join(lines) + "\n")
@@ -400,8 +426,9 @@ def oracle_layout(facts, recs):
 
 def oracle_optimize(orig_total, in_fields, out, exact_sizes):
     """in_fields: list of (name, size, align) the output must be a permutation of.
-    exact_sizes=False: a field whose true size is 0 may be shown with size in [0, align]
-    (the byte the compiler adds after a trailing zero-size field, rounded to alignment)."""
+    exact_sizes=False: a field whose true size is 0 may be shown with size 0, 1 or its
+    alignment (the byte the compiler adds after a trailing zero-size field, as it is or rounded
+    up to the field's alignment)."""
     errs = []
     fo = [r for r in out if not r["pad"]]
     if sorted(r["name"] for r in fo) != sorted(n for n, _, _ in in_fields):
@@ -414,7 +441,7 @@ def oracle_optimize(orig_total, in_fields, out, exact_sizes):
         cands = by[r["name"]]
         ok = False
         for (s, a) in cands:
-            if a == r["align"] and (s == r["size"] or (not exact_sizes and s == 0 and 0 <= r["size"] <= a)):
+            if a == r["align"] and (s == r["size"] or (not exact_sizes and s == 0 and r["size"] in (0, 1, a))):
                 ok = True
         if not ok:
             errs.append("field %s has size %d align %d in the output, input %s" % (r["name"], r["size"], r["align"], cands))
@@ -435,8 +462,77 @@ def oracle_optimize(orig_total, in_fields, out, exact_sizes):
 
 
 # ----------------------------------------------------------------------------- pipeline
-def run_cli(ctx, bins, d, n):
-    """structlayout -json . Ti  and  | structlayout-optimize -json [-r] for all i."""
+BATCH_TMPL = os.path.join(vlib.HARNESS, "cmd", "c19batch")
+
+
+def build_batch(ctx):
+    """Build the two batch drivers from the REAL sources of the tree under test:
+    <repo>/cmd/structlayout/main.go and <repo>/cmd/structlayout-optimize/main.go are copied
+    (only `func main()` renamed to `func cliMain()`) next to harness/cmd/c19batch/*.tmpl into
+    a scratch module with `replace honnef.co/go/tools => <repo>`."""
+    vlib.sync_harness_gosum()
+    root = os.path.dirname(ctx.path("batch", "go.mod"))
+    gm = open(os.path.join(vlib.HARNESS, "go.mod")).read()
+    gm = gm.replace("module verif/harness", "module verif/c19batch").replace("=> /repo", "=> " + os.path.realpath(vlib.REPO))
+    open(os.path.join(root, "go.mod"), "w").write(gm)
+    vlib.shutil.copy(os.path.join(vlib.HARNESS, "go.sum"), os.path.join(root, "go.sum"))
+    for name, cmd in (("layout", "structlayout"), ("optimize", "structlayout-optimize")):
+        d = os.path.join(root, name)
+        os.makedirs(d, exist_ok=True)
+        src = open(os.path.join(vlib.REPO, "cmd", cmd, "main.go")).read()
+        if src.count("\nfunc main() {") != 1:
+            raise vlib.HarnessError("cmd/%s/main.go: cannot find `func main() {` to wrap" % cmd)
+        open(os.path.join(d, "main.go"), "w").write(src.replace("\nfunc main() {", "\nfunc cliMain() {"))
+        vlib.shutil.copy(os.path.join(BATCH_TMPL, name + "_driver.go.tmpl"), os.path.join(d, "driver.go"))
+    outdir = os.path.dirname(ctx.path("bin_batch", "x"))
+    rc, so, se = vlib.run([vlib.GO, "build", "-tags", "verif", "-o", outdir + os.sep, "./layout", "./optimize"], cwd=root, env=vlib.go_env(), timeout=1200)
+    if rc != 0:
+        raise vlib.BuildError("go build of the batch drivers around cmd/structlayout{,-optimize} failed:\n%s" % (so + se)[-6000:])
+    return {"layout": os.path.join(outdir, "layout"), "optimize": os.path.join(outdir, "optimize")}
+
+
+def build_repo_cmds(ctx):
+    """structlayout and structlayout-optimize of the tree under test, one go invocation."""
+    outdir = os.path.dirname(ctx.path("bin_repo", "x"))
+    rc, so, se = vlib.run([vlib.GO, "build", "-tags", "verif", "-o", outdir + os.sep, "./cmd/structlayout", "./cmd/structlayout-optimize"],
+                          cwd=vlib.REPO, env=vlib.go_env(), timeout=1200)
+    if rc != 0:
+        raise vlib.BuildError("go build ./cmd/structlayout ./cmd/structlayout-optimize failed:\n%s" % (so + se)[-6000:])
+    return {"structlayout": os.path.join(outdir, "structlayout"), "structlayout-optimize": os.path.join(outdir, "structlayout-optimize")}
+
+
+def run_optimize_batch(ctx, bins, jobs):
+    """jobs: list of (recurse: bool, json text). Returns a list of ("ok", parsed) | ("crash", msg).
+    One process for all jobs; if it dies, the jobs are re-run one by one through the real binary."""
+    inp = "".join("%d %s\n" % (1 if r else 0, j.strip()) for r, j in jobs)
+    rc, so, se = vlib.run([bins["batch-optimize"]], input=inp, env=vlib.go_env(), timeout=1800)
+    lines = so.splitlines()
+    if rc == 0 and len(lines) == len(jobs):
+        return [("ok", json.loads(l)) for l in lines]
+    res = []
+    for r, j in jobs:
+        rc2, so2, se2 = vlib.run([bins["structlayout-optimize"], "-json"] + (["-r"] if r else []), input=j, env=vlib.go_env(), timeout=600)
+        res.append(("ok", json.loads(so2) if so2.strip() else []) if rc2 == 0 else ("crash", "rc=%d %s" % (rc2, se2[-300:])))
+    return res
+
+
+def run_real(ctx, bins, d, n):
+    """structlayout's records for T0..T(n-1) (batch driver around the real `sizes`) and
+    structlayout-optimize [-r] on them (batch driver around the real main)."""
+    rc, so, se = vlib.run([bins["batch-layout"], os.path.join(d, "p", "types.go"), str(n)], env=vlib.go_env(), timeout=1800)
+    lines = so.splitlines()
+    if rc != 0 or len(lines) != n:
+        raise vlib.HarnessError("batch structlayout failed: rc=%d %s" % (rc, se[-2000:]))
+    jobs = []
+    for l in lines:
+        jobs += [(False, l), (True, l)]
+    opt = run_optimize_batch(ctx, bins, jobs)
+    return [("ok", json.loads(lines[i]), opt[2 * i], opt[2 * i + 1]) for i in range(n)]
+
+
+def run_cli(ctx, bins, d, idx):
+    """The real binaries end to end, `structlayout -json . Ti | structlayout-optimize -json [-r]`,
+    for the sampled type numbers idx."""
     env = vlib.go_env()
     pdir = os.path.join(d, "p")
 
@@ -454,35 +550,52 @@ def run_cli(ctx, bins, d, n):
                 res.append(("ok", json.loads(so2) if so2.strip() else []))
         return ("ok", lay, res[0], res[1])
 
-    with ThreadPoolExecutor(max_workers=max(2, vlib.NCPU // 2)) as ex:
-        return list(ex.map(one, range(n)))
+    with ThreadPoolExecutor(max_workers=4) as ex:
+        return dict(zip(idx, ex.map(one, idx)))
 
 
-def pipeline(ctx, bins, types, tag, stats):
+def pipeline(ctx, bins, types, tag, stats, cli_sample=0):
     """Run all types through compiler, real code and model. Returns (oracle failures,
     model/implementation differences); each a list of dicts."""
     n = len(types)
     d = ctx.path("mod_" + tag, "go.mod")
     d = os.path.dirname(d)
     src = render_module(ctx, d, types)
-    t1 = vlib.time.time()
-    facts = compile_facts(ctx, d, n)
-    stats["t_compile_s"] = stats.get("t_compile_s", 0) + round(vlib.time.time() - t1, 1)
     rc, so, se = vlib.run([bins["c19sizes"], os.path.join(d, "p", "types.go"), str(n)], env=vlib.go_env(), timeout=600)
     if rc != 0:
         raise vlib.HarnessError("c19sizes failed: " + se[-2000:])
     glines = so.splitlines()
     t1 = vlib.time.time()
-    cli = run_cli(ctx, bins, d, n)
+    cli = run_real(ctx, bins, d, n)
+    stats["t_batch_s"] = stats.get("t_batch_s", 0) + round(vlib.time.time() - t1, 1)
+    # the structs as reordered by structlayout-optimize (default mode): compiled in the same program
+    reorder = []
+    for i in range(n):
+        ost, oj = cli[i][2]
+        if ost != "ok" or not is_struct(types[i]):
+            continue
+        order = [j["name"].split(".", 1)[1] if "." in j["name"] else j["name"] for j in oj if not j["is_padding"]]
+        fm = {name: (name, emb, ft) for name, emb, ft in struct_fields(types[i])}
+        if order and sorted(order) == sorted(fm):
+            reorder.append((i, order, ["struct", [list(fm[nm]) for nm in order]]))
+    render_module(ctx, d, types, [r[2] for r in reorder])
+    t1 = vlib.time.time()
+    facts_all = compile_facts(ctx, d, n + len(reorder))
+    facts, facts_re = facts_all[:n], facts_all[n:]
+    stats["t_compile_s"] = stats.get("t_compile_s", 0) + round(vlib.time.time() - t1, 1)
+    # a sample of the types through the real binaries end to end (main(), packages.Load, flags)
+    t1 = vlib.time.time()
+    k = min(n, cli_sample)
+    sample = sorted(set(int(x * n / k) for x in range(k))) if k else []
+    e2e = run_cli(ctx, bins, d, sample)
     stats["t_cli_s"] = stats.get("t_cli_s", 0) + round(vlib.time.time() - t1, 1)
 
     toks = [" ".join(model_tokens(t)) for t in types]
     mlines = []
     for tk in toks:
-        mlines += ["gc " + tk, "gcs " + tk, "lay " + tk, "opt 0 " + tk, "opt 1 " + tk]
+        mlines += ["gc " + tk, "gcs " + tk, "lay " + tk, "opt 0 " + tk, "opt 1 " + tk, "leaves " + tk]
     mout = vlib.run_model(ctx, "C19", mlines)
     fails, diffs = [], []
-    reordered = []
 
     def case(i):
         decls = {}
@@ -491,10 +604,16 @@ def pipeline(ctx, bins, types, tag, stats):
                 "decls": [v for v in decls.values()], "ty": types[i], "model_input": toks[i]}
 
     for i in range(n):
-        mgc, mgcs, mlay, mopt0, mopt1 = mout[5 * i:5 * i + 5]
-        if "bad-op" in (mgc, mgcs, mlay, mopt0, mopt1):
+        mgc, mgcs, mlay, mopt0, mopt1, mleaves = mout[6 * i:6 * i + 6]
+        if "bad-op" in (mgc, mgcs, mlay, mopt0, mopt1, mleaves):
             raise vlib.HarnessError("model rejected type: " + toks[i])
         f = facts[i]
+        # the Lean specification of the leaves (gcLeavesFields, what layout_fields_eq_gc is stated
+        # against) is what the compiler says (a mismatch is a bug of this framework)
+        want = " ".join("l:%s:%d:%d:%d" % (x[0], x[2], x[3], x[4]) for x in f if x[1] == "l") if f[0][1] == "s" else "-"
+        if mleaves != want:
+            raise vlib.HarnessError("Lean leaf specification disagrees with the compiler on %s: %s vs %s" % (toks[i], mleaves, want))
+        stats["leaf_spec_cases"] += 1
         # the specification against the compiler (a mismatch is a bug of this framework)
         spec_line = "%d %s" % (i, mgc)
         e = oracle_gcsizes(f, spec_line)
@@ -507,52 +626,45 @@ def pipeline(ctx, bins, types, tag, stats):
             fails.append(dict(case(i), what="gcsizes", errors=e[:6], real=glines[i].split(None, 1)[1], compiler=[list(x) for x in f[:12]]))
         if glines[i].split(None, 1)[1] != mgcs:
             diffs.append(dict(case(i), stream="gcsizes", real=glines[i].split(None, 1)[1], model=mgcs))
-        # 2. structlayout
-        st, lay, o0, o1 = cli[i]
-        if st != "ok":
-            raise vlib.HarnessError(lay)
-        recs = [rec_from_json(j, "T%d" % i) for j in lay]
-        e = oracle_layout(f, recs)
-        stats["layout_cases"] += 1
-        if e:
-            fails.append(dict(case(i), what="structlayout", errors=e[:6], real=show(recs), compiler=[list(x) for x in f[:16]]))
-        if show(recs) != show(recs_from_model(mlay)):
-            diffs.append(dict(case(i), stream="structlayout", real=show(recs), model=show(recs_from_model(mlay))))
-        # 3. structlayout-optimize, both modes
-        top = [(x[0], x[3], x[4]) for x in f[1:] if x[0].count(".") == 1]
-        leaves_in = [(r["name"], r["size"], r["align"]) for r in recs if not r["pad"]]
-        for mode, (ost, oj), mo in (("", o0, mopt0), ("-r", o1, mopt1)):
-            stats["optimize_cases"] += 1
-            if ost != "ok":
-                fails.append(dict(case(i), what="optimize" + mode, errors=["structlayout-optimize crashed: " + oj], input=show(recs)))
-                continue
-            out = [rec_from_json(j, "T%d" % i) for j in oj]
-            if f[0][1] == "l":
-                e = [] if not out else ["output for an empty struct"]
-            elif mode == "":
-                e = oracle_optimize(f[0][3], top, out, exact_sizes=False)
-            else:
-                e = oracle_optimize(f[0][3], leaves_in, out, exact_sizes=True)
+        # 2./3. structlayout and structlayout-optimize: batch drivers around the real sources for every
+        # type, the real binaries end to end for the sampled types
+        for via, (st, lay, o0, o1) in [("batch", cli[i])] + ([("cli", e2e[i])] if i in e2e else []):
+            if via == "cli":
+                stats["cli_e2e_types"] += 1
+            if st != "ok":
+                raise vlib.HarnessError(lay)
+            recs = [rec_from_json(j, "T%d" % i) for j in lay]
+            e = oracle_layout(f, recs)
+            stats["layout_cases"] += 1
             if e:
-                fails.append(dict(case(i), what="optimize" + mode, errors=e[:6], input=show(recs), real=show(out), original_size=f[0][3]))
-            if show(canon_ties(out)) != show(canon_ties(recs_from_model(mo))):
-                diffs.append(dict(case(i), stream="optimize" + mode, real=show(out), model=show(recs_from_model(mo))))
-            if mode == "" and f[0][1] == "s" and not e:
-                reordered.append((i, [r["name"].split(".")[1] for r in out if not r["pad"]], out[-1]["end"] if out else 0))
+                fails.append(dict(case(i), via=via, what="structlayout", errors=e[:6], real=show(recs), compiler=[list(x) for x in f[:16]]))
+            if show(recs) != show(recs_from_model(mlay)):
+                diffs.append(dict(case(i), via=via, stream="structlayout", real=show(recs), model=show(recs_from_model(mlay))))
+            # 3. structlayout-optimize, both modes
+            top = [(x[0], x[3], x[4]) for x in f[1:] if x[0].count(".") == 1]
+            leaves_in = [(r["name"], r["size"], r["align"]) for r in recs if not r["pad"]]
+            for mode, (ost, oj), mo in (("", o0, mopt0), ("-r", o1, mopt1)):
+                stats["optimize_cases"] += 1
+                if ost != "ok":
+                    fails.append(dict(case(i), via=via, what="optimize" + mode, errors=["structlayout-optimize crashed: " + oj], input=show(recs)))
+                    continue
+                out = [rec_from_json(j, "T%d" % i) for j in oj]
+                if f[0][1] == "l":
+                    e = [] if not out else ["output for an empty struct"]
+                elif mode == "":
+                    e = oracle_optimize(f[0][3], top, out, exact_sizes=False)
+                else:
+                    e = oracle_optimize(f[0][3], leaves_in, out, exact_sizes=True)
+                if e:
+                    fails.append(dict(case(i), via=via, what="optimize" + mode, errors=e[:6], input=show(recs), real=show(out), original_size=f[0][3]))
+                if show(canon_ties(out)) != show(canon_ties(recs_from_model(mo))):
+                    diffs.append(dict(case(i), via=via, stream="optimize" + mode, real=show(out), model=show(recs_from_model(mo))))
 
     # 5. what the compiler makes of the reordered structs
-    if reordered:
-        rtypes = []
-        for (i, order, claimed) in reordered:
-            fm = {name: (name, emb, ft) for name, emb, ft in struct_fields(types[i])}
-            rtypes.append(["struct", [list(fm[nm]) for nm in order]])
-        d2 = os.path.dirname(ctx.path("mod_" + tag + "_re", "go.mod"))
-        render_module(ctx, d2, rtypes)
-        facts2 = compile_facts(ctx, d2, len(rtypes))
-        for (i, order, claimed), f2 in zip(reordered, facts2):
-            stats["reordered_compiled"] += 1
-            if f2[0][3] > facts[i][0][3]:
-                fails.append(dict(case(i), what="optimize-compiled", errors=["field order %s proposed by structlayout-optimize compiles to %d bytes, the original to %d" % (order, f2[0][3], facts[i][0][3])]))
+    for (i, order, _), f2 in zip(reorder, facts_re):
+        stats["reordered_compiled"] += 1
+        if f2[0][3] > facts[i][0][3]:
+            fails.append(dict(case(i), what="optimize-compiled", errors=["field order %s proposed by structlayout-optimize compiles to %d bytes, the original to %d" % (order, f2[0][3], facts[i][0][3])]))
     stats["source_bytes"] += len(src)
     return fails, diffs
 
@@ -599,18 +711,24 @@ def to_json(recs):
                         "align": r["align"], "is_padding": r["pad"]} for r in recs])
 
 
-def synth_stream(ctx, bins, cases, stats):
+def synth_stream(ctx, bins, cases, stats, cli_sample=0):
     env = vlib.go_env()
-
-    def one(recs):
-        res = []
-        for flag in ([], ["-r"]):
-            rc, so, se = vlib.run([bins["structlayout-optimize"], "-json"] + flag, input=to_json(recs), env=env, timeout=120)
-            res.append(("ok", json.loads(so) if so.strip() else []) if rc == 0 else ("crash", se[-300:]))
-        return res
-
-    with ThreadPoolExecutor(max_workers=max(2, vlib.NCPU // 2)) as ex:
-        outs = list(ex.map(one, cases))
+    jobs = []
+    for recs in cases:
+        jobs += [(False, to_json(recs)), (True, to_json(recs))]
+    flat = run_optimize_batch(ctx, bins, jobs)
+    outs = [[flat[2 * k], flat[2 * k + 1]] for k in range(len(cases))]
+    # a sample through the real binary: must print exactly what the batch driver got
+    k = min(len(cases), cli_sample)
+    for x in sorted(set(int(y * len(cases) / k) for y in range(k))) if k else []:
+        for m, flag in enumerate(([], ["-r"])):
+            rc, so, se = vlib.run([bins["structlayout-optimize"], "-json"] + flag, input=to_json(cases[x]), env=env, timeout=120)
+            real = ("ok", json.loads(so) if so.strip() else []) if rc == 0 else ("crash", se[-300:])
+            stats["cli_e2e_synthetic"] += 1
+            if real != outs[x][m]:
+                # the binary is the reference
+                outs[x][m] = real
+                stats["cli_batch_mismatch"] = stats.get("cli_batch_mismatch", 0) + 1
     mlines = []
     for recs in cases:
         mlines += ["optrec 0 " + show(recs), "optrec 1 " + show(recs)]
@@ -667,13 +785,21 @@ def nontrivial(t):
 
 
 def run(ctx):
+    t1 = vlib.time.time()
     lean_ok, lean_broke = vlib.std_lean_phase(ctx, MODULES, THEOREMS)
-    bins = {
-        "c19sizes": vlib.build_harness(ctx, "c19sizes"),
-        "structlayout": vlib.build_repo_cmd(ctx, "./cmd/structlayout"),
-        "structlayout-optimize": vlib.build_repo_cmd(ctx, "./cmd/structlayout-optimize"),
-    }
-    stats = {k: 0 for k in ("gcsizes_cases", "layout_cases", "optimize_cases", "reordered_compiled", "synthetic_optimize_cases", "source_bytes")}
+    t_lean = round(vlib.time.time() - t1, 1)
+    t1 = vlib.time.time()
+    with ThreadPoolExecutor(max_workers=3) as ex:
+        fa = ex.submit(vlib.build_harness, ctx, "c19sizes")
+        fb = ex.submit(build_repo_cmds, ctx)
+        fc = ex.submit(build_batch, ctx)
+        bins = {"c19sizes": fa.result()}
+        bins.update(fb.result())
+        for k, v in fc.result().items():
+            bins["batch-" + k] = v
+    t_build = round(vlib.time.time() - t1, 1)
+    stats = {k: 0 for k in ("gcsizes_cases", "layout_cases", "optimize_cases", "reordered_compiled", "synthetic_optimize_cases", "source_bytes", "leaf_spec_cases", "cli_e2e_types", "cli_e2e_synthetic")}
+    stats["t_lean_s"], stats["t_go_build_s"] = t_lean, t_build
     rng = vlib.SplitMix(ctx.seed).fork("C19")
     gen = Gen(rng.fork("types"))
 
@@ -683,22 +809,22 @@ def run(ctx):
         synth_n = 0
         extra_synth = [c["input"] for c in rp.get("cases", []) if "ty" not in c and "input" in c]
     else:
-        ngen = 110 if ctx.quick else 700
+        ngen = 300 if ctx.quick else 4000
         types = load_corpus() + [gen.top() for _ in range(ngen)]
-        synth_n = 150 if ctx.quick else 1500
+        synth_n = 800 if ctx.quick else 10000
         extra_synth = []
 
     fails, diffs = [], []
     ctx.notes.append("t_setup=%.1fs" % (vlib.time.time() - ctx.t0))
-    chunk = 400
+    chunk = 500
     for c in range(0, len(types), chunk):
-        f, d = pipeline(ctx, bins, types[c:c + chunk], "c%d" % c, stats)
+        f, d = pipeline(ctx, bins, types[c:c + chunk], "c%d" % c, stats, cli_sample=(4 if ctx.quick else 40) if c == 0 else (0 if ctx.quick else 8))
         fails += f
         diffs += d
     synth_cases = []
     if synth_n:
         r2 = rng.fork("synth")
-        f, d, synth_cases = synth_stream(ctx, bins, [synth_records(r2) for _ in range(synth_n)], stats)
+        f, d, synth_cases = synth_stream(ctx, bins, [synth_records(r2) for _ in range(synth_n)], stats, cli_sample=4 if ctx.quick else 60)
         fails += f
         diffs += d
     if extra_synth:
@@ -734,11 +860,18 @@ def run(ctx):
         "samples": [{"model_input": " ".join(model_tokens(t)), "go": go_src(t, {})} for t in allt[:3] + allt[-3:]],
     })
     ctx.assumptions += [
-        "amd64 only (word size 8, max alignment 8); gcsizes.ForArch reads build.Default.GOARCH",
-        "the Lean gc specification is compared with the real compiler on every generated type (a mismatch aborts with exit 2); the compiler itself is trusted",
-        "go/types, go/packages (loading the package for structlayout) and encoding/json are trusted",
-        "blank (_) fields, type parameters and sync/atomic's align64 are outside the generator (not in the property's quantifier)",
-        "a zero-size field that ends a non-zero-size struct is shown by structlayout with the byte the compiler adds after it (size 1); the oracle accepts size 0 or 1 there",
+        "amd64 only (word size 8, max alignment 8): the Lean model fixes WordSize = MaxAlign = 8; gcsizes.ForArch reads build.Default.GOARCH of the machine the check runs on",
+        "the Lean specification of the compiler (gcSizeof/gcAlignof/gcOffsetsof/gcLeavesFields) is compared with the real compiler (unsafe.Sizeof/Alignof/Offsetof of a compiled program) "
+        "on every generated type; a mismatch aborts with exit 2; the compiler itself is trusted",
+        "modelled and proved: gcsizes.Sizeof/Alignof/Offsetsof/align, structlayout `sizes`, structlayout-optimize combine/optimize(byAlignAndSize.Less)/offsetsof/pad/size; "
+        "the models are tied to the code by executable correspondence on the explored inputs only (X), not by a proof about the Go source",
+        "sort.Sort is modelled by a stable merge sort; outputs are compared modulo the order of fields with equal (size, alignment), which cannot change a layout",
+        "the batch drivers compile the unmodified source of cmd/structlayout{,-optimize}/main.go of the tree under test (only `func main` renamed); a sample of the cases goes through the real binaries end to end",
+        "outside model and theorems: main() of both commands (flags, packages.Load, JSON), cmd/structlayout-pretty (rendering only), structlayout.Field.String, go/types, go/packages, encoding/json",
+        "outside the property's quantifier and the generator: blank (_) fields (two `_` fields are merged by combine), type parameters, sync/atomic's align64, other architectures; "
+        "the theorems about the default mode assume distinct field names, which Go guarantees for non-blank fields",
+        "a zero-size field that ends a non-zero-size struct is shown by structlayout with the byte the compiler adds after it (size 1), and by structlayout-optimize's default mode with that byte "
+        "rounded up to the field's alignment; the oracle accepts 0, 1 or the alignment there and nothing else",
     ]
 
     if fails:
@@ -770,12 +903,19 @@ def run(ctx):
 
 META = {
     "level": "proof",
-    "technique": "Lean 4 theorems over models of the gc layout rules, go/gcsizes, cmd/structlayout and cmd/structlayout-optimize; "
-                 "executable correspondence with the real code and the real compiler on generated struct types",
-    "text": "gcsizes = compiler rules for every type, structlayout's records tile [0, sizeof T), optimize's output is a permutation, "
-            "a valid layout and not larger, proved over the Lean model; the model and the compiler-rule specification are compared on "
-            "every run with go/gcsizes in-process, the structlayout/structlayout-optimize binaries and a compiled program printing "
-            "unsafe.Sizeof/Alignof/Offsetof for generated struct types.",
-    "note": "Trusted: Lean kernel, compiled model driver, the Go compiler (oracle), go/types, go/packages, the python check. amd64 only.",
-    "design_ref": "DESIGN.md section 5, C19",
+    "technique": "Lean 4 theorems (17, no Mathlib) over transliterated models of go/gcsizes, cmd/structlayout `sizes` and cmd/structlayout-optimize "
+                 "combine/sort/pad and over a specification of the gc compiler's layout rules, for all types of the type grammar and all record lists; "
+                 "executable correspondence (X) of the models with the real code and of the specification with the real compiler on seeded generated struct types",
+    "text": "Proved for ALL struct types of the grammar (basic kinds, pointer-shaped kinds, named/alias, arrays incl. length 0, nested and empty structs): "
+            "every type has an alignment in {1,2,4,8} dividing its size; gcsizes.Sizeof/Alignof/Offsetsof = the compiler's rules; structlayout's records tile "
+            "[0, Sizeof T) without gap or overlap, fields are aligned, and the field records are exactly the compiler's leaves (name, absolute offset, size, alignment; "
+            "a zero-size field ending a non-empty struct may show the added byte). Proved for ALL record lists: structlayout-optimize -r outputs a permutation of the "
+            "input fields that is a valid layout, and (alignments powers of two, input a valid roomy layout) is never larger than the input; proved for ALL struct types: "
+            "structlayout | structlayout-optimize [-r] is a permutation of the (top-level resp. leaf) fields as the compiler has them, a valid layout, and at most Sizeof T "
+            "(default mode: for distinct field names). Explored, not proved: that the Lean models are the Go code (compared on every run on ~320/4000 generated types + "
+            "800/10000 synthetic record lists + the corpus, through the real functions and, for a sample, the real binaries) and that the Lean specification is the "
+            "compiler (compared with a compiled program on every generated type).",
+    "note": "Trusted: Lean kernel; the compiled Lean driver; the Go compiler as oracle; go/types; the python check and Go harness. amd64 only. Four defects found by this "
+            "check were fixed in /repo (08f02f6, 16fd1e2, 58a3d61, 169e4a6).",
+    "design_ref": "DESIGN.md section 5 C19, section 9.2 C19; notes/C19.md",
 }
